@@ -24,15 +24,17 @@ inductive Err where
   | allEmpty
   deriving DecidableEq, Repr
 
-/-- Core has no `DecidableEq (Except ε α)`; needed for `decide` on results (scoped to this
-namespace's name, generic in `ε`, `α`). -/
-instance instDecidableEqExcept {ε α : Type} [DecidableEq ε] [DecidableEq α] :
-    DecidableEq (Except ε α)
+/-- Core has no `DecidableEq (Except ε α)`; needed for `decide`/`==` on results. Kept as a plain
+`def` and instantiated only at this model's own error types, so that no global instance for
+`Except` is introduced. -/
+def decEqExcept {ε α : Type} [DecidableEq ε] [DecidableEq α] : DecidableEq (Except ε α)
   | .ok a, .ok b => if h : a = b then isTrue (h ▸ rfl) else isFalse (fun h' => h (Except.ok.inj h'))
   | .error a, .error b =>
     if h : a = b then isTrue (h ▸ rfl) else isFalse (fun h' => h (Except.error.inj h'))
   | .ok _, .error _ => isFalse (fun h => nomatch h)
   | .error _, .ok _ => isFalse (fun h => nomatch h)
+
+instance : DecidableEq (Except Err Nat) := decEqExcept
 
 /-! ### Register / Count / Len -/
 
@@ -166,6 +168,8 @@ inductive NextErr where
   | mgr (e : Err)
   | invalidStrategy
   deriving DecidableEq, Repr
+
+instance : DecidableEq (Except NextErr Nat) := decEqExcept
 
 /-- Embedding of the manager's errors into the errors of `next`. -/
 def liftErr : Except Err Nat → Except NextErr Nat
